@@ -58,7 +58,7 @@ def plan(seed, tier):
                 "world": c02.GEN_WORLD,
                 "fn": "gen_programs",
                 "payload": {"seed": "%s/c03gen/%d" % (seed, g), "count": nprog // ngen, "tier": tier, "corpus": g < (2 if tier == "quick" else 16)},
-                "timeout": 300,
+                "timeout": 900,
             }
         )
     return jobs
@@ -93,7 +93,7 @@ def post_plan(seed, tier, jobs, results):
                         "nsched": nsched,
                         "seed": "%s/c03/p%d" % (seed, pid),
                     },
-                    "timeout": 240,
+                    "timeout": 900,
                 }
             )
     nmemo = 64 if tier == "quick" else 640
@@ -103,7 +103,7 @@ def post_plan(seed, tier, jobs, results):
                 "world": worlds[m % nworlds],
                 "fn": "memo_histories",
                 "payload": {"seed": "%s/c03/memo%d" % (seed, m), "count": 12 if tier == "quick" else 40},
-                "timeout": 240,
+                "timeout": 900,
             }
         )
     return out
